@@ -6,6 +6,7 @@
 use std::io::{self, BufRead, Write};
 use std::panic::{catch_unwind, AssertUnwindSafe};
 
+mod group;
 mod node;
 mod orswot;
 mod rpc;
@@ -24,6 +25,7 @@ fn new_domain(name: &str, params: &[&str]) -> Option<Box<dyn Domain>> {
         "rpc" => Some(Box::new(rpc::RpcDomain::new(params))),
         "node" => Some(Box::new(node::NodeDomain::new(params))),
         "store" => Some(Box::new(store::StoreDomain::new(params))),
+        "group" => Some(Box::new(group::GroupDomain::new(params))),
         _ => None,
     }
 }
